@@ -12,6 +12,6 @@ PROP = {
         ],
         "lanes": [
             native("c09"),
-            miri("c09", seeds_q=0, seeds_t=48, args={"miri-cases": 4, "miri-conc": 3, "miri-conc-ops": 8}),
+            miri("c09", seeds_q=0, seeds_t=32, args={"miri-cases": 4, "miri-conc": 3, "miri-conc-ops": 8}),
         ],
     }
